@@ -263,4 +263,128 @@ example : toBytes toy Mk.all [97, 233, 945, 98] = [97, 233, 94, 71, 225, 98] := 
 example : toString toy [97, 233, 94, 71, 225, 98] = [97, 233, 945, 98] := by decide
 example : toBytes toy Mk.all [97, 128512, 98] = [97, 63, 98] := by decide
 
+/-! ### carets in the text (used by C12's wire clause) -/
+
+/-- a fifth law, needed only when carets occur in the text: the first byte of an encoded non-ASCII
+character is never a codepage letter or '8' (true of every real table: lead bytes are ≥ 0x80) -/
+def LeadLaw (cp : Mk → CP) : Prop :=
+  ∀ x c b bs, isAscii c = false → (cp x).enc c = some (b :: bs) → mk? b = none
+
+/-- every caret of the text is followed by something that is not a codepage letter or '8' (or by nothing) -/
+def CaretOk : Str → Prop
+  | [] => True
+  | [_] => True
+  | c :: d :: rest => (c = 94 → mk? d = none) ∧ CaretOk (d :: rest)
+
+theorem caretOk_tail (c : Nat) (cs : Str) (h : CaretOk (c :: cs)) : CaretOk cs := by
+  cases cs with
+  | nil => trivial
+  | cons d rest => exact h.2
+
+/-- a caret that is not the start of a marker is just another byte of the current segment -/
+theorem decGo_caret (cp : Mk → CP) (cur : Mk) (acc rest : Bytes)
+    (h : ∀ x xs, rest = x :: xs → mk? x = none) :
+    decGo cp cur acc (94 :: rest) = decGo cp cur (acc ++ [94]) rest := by
+  cases rest with
+  | nil => simp [decGo]
+  | cons x xs => simp [decGo, h x xs rfl]
+
+theorem enc_nonempty (cp : Mk → CP) (L : Laws cp) (x : Mk) (c : Nat) (h : (cp x).enc c = some []) : False := by
+  have := L.decEnc x c [] [] h
+  simp [L.decNil] at this
+
+/-- the first byte the encoder emits for a text whose first character follows a caret safely -/
+theorem encGo_head (cp : Mk → CP) (order : List Mk) (L : Laws cp) (LL : LeadLaw cp) (cur : Mk) (d : Nat) (ds : Str)
+    (hd : mk? d = none) : ∀ x xs, encGo cp order cur (d :: ds) = x :: xs → mk? x = none := by
+  intro x xs he
+  simp only [encGo] at he
+  split at he
+  · injection he with h1 _; subst h1; exact hd
+  · rename_i ha
+    have ha' : isAscii d = false := by simpa using ha
+    split at he
+    · rename_i bs hb
+      cases bs with
+      | nil => exact absurd hb (fun h => enc_nonempty cp L cur d h)
+      | cons b bs' =>
+        simp only [List.cons_append] at he
+        injection he with h1 _; subst h1
+        exact LL cur d b bs' ha' hb
+    · split at he
+      · injection he with h1 _; subst h1; decide
+      · injection he with h1 _; subst h1; decide
+
+/-- main invariant, with carets allowed -/
+theorem faithful_go_carets (cp : Mk → CP) (order : List Mk) (ho : ∀ x : Mk, x ∈ order) (L : Laws cp) (LL : LeadLaw cp) (s : Str)
+    (hs : ∀ c ∈ s, isAscii c = true ∨ Encodable cp c) (hc : CaretOk s) :
+    ∀ (cur : Mk) (acc : Bytes) (pre : Str),
+      (∀ r, (cp cur).dec (acc ++ r) = pre ++ (cp cur).dec r) →
+      decGo cp cur acc (encGo cp order cur s) = pre ++ s := by
+  induction s with
+  | nil =>
+    intro cur acc pre hp
+    have := hp []
+    simp [L.decNil] at this
+    simp [encGo, decGo, this]
+  | cons c cs ih =>
+    intro cur acc pre hp
+    have hcc := hs c (by simp)
+    have hcs : ∀ d ∈ cs, isAscii d = true ∨ Encodable cp d := fun d hd => hs d (by simp [hd])
+    have hct := caretOk_tail c cs hc
+    by_cases h94 : c = 94
+    · -- a literal caret: ASCII, copied; what follows does not start with a marker byte
+      subst h94
+      have ha : isAscii 94 = true := by decide
+      simp only [encGo, ha, if_true]
+      have hnext : ∀ x xs, encGo cp order cur cs = x :: xs → mk? x = none := by
+        cases cs with
+        | nil => intro x xs he; simp [encGo] at he
+        | cons d ds => exact encGo_head cp order L LL cur d ds (hc.1 rfl)
+      rw [decGo_caret cp cur acc _ hnext, ih hcs hct cur (acc ++ [94]) (pre ++ [94])]
+      · simp
+      · intro r
+        rw [List.append_assoc, hp, List.singleton_append, L.ascii cur 94 r ha]; simp
+    · simp only [encGo]
+      split
+      · rename_i ha
+        have hb : (94 : Nat) ∉ [c] := by simp; exact fun e => h94 e.symm
+        have := decGo_skip cp cur acc [c] (encGo cp order cur cs) hb
+        simp only [List.singleton_append] at this
+        rw [this, ih hcs hct cur (acc ++ [c]) (pre ++ [c])]
+        · simp
+        · intro r
+          rw [List.append_assoc, hp, List.singleton_append, L.ascii cur c r ha]; simp
+      · rename_i ha
+        split
+        · rename_i bs he
+          rw [decGo_skip cp cur acc bs _ (L.noCaret cur c bs he), ih hcs hct cur (acc ++ bs) (pre ++ [c])]
+          · simp
+          · intro r
+            rw [List.append_assoc, hp, L.decEnc cur c bs r he]; simp
+        · rename_i hn
+          split
+          · rename_i x bs hf
+            have he := findCp_sound cp cur c order x bs hf
+            have hpre : (cp cur).dec acc = pre := by have := hp []; simpa [L.decNil] using this
+            simp only [decGo, mk_byte, if_true, hpre]
+            rw [decGo_skip cp x [] bs _ (L.noCaret x c bs he), ih hcs hct x ([] ++ bs) [c]]
+            · simp
+            · intro r
+              simp [L.decEnc x c bs r he]
+          · rename_i hf
+            exfalso
+            rcases hcc with h | ⟨x, bs, he⟩
+            · exact ha h
+            · obtain ⟨r, hr⟩ := findCp_complete cp cur c order hn x (ho x) bs he
+              rw [hr] at hf; cases hf
+
+/-- **faithful, carets included**: text whose characters each exist in some codepage, in which no caret is
+followed by a codepage letter or '8', survives encode-then-decode unchanged -/
+theorem faithful_carets (cp : Mk → CP) (order : List Mk) (ho : ∀ x : Mk, x ∈ order) (L : Laws cp) (LL : LeadLaw cp) (s : Str)
+    (hs : ∀ c ∈ s, isAscii c = true ∨ Encodable cp c) (hc : CaretOk s) :
+    Cp.toString cp (toBytes cp order s) = s := by
+  rw [toBytes_eq_encGo]
+  have := faithful_go_carets cp order ho L LL s hs hc .L [] [] (by intro r; simp)
+  unfold Cp.toString; exact this
+
 end Insim.Props.C10
